@@ -322,6 +322,7 @@ def decWOp : List String → Option WOp
   | ["opAddCopy", f, n, h, wn] => do pure (.opAddCopy (← f.toNat?) (← n.toNat?) (← Has.ofString h) (← Wants.ofString wn))
   | ["fault", n, f, len, dg] => do pure (.fault (← n.toNat?) (← f.toNat?) (some ⟨← len.toNat?, ← dg.toNat?⟩))
   | ["fault", n, f] => do pure (.fault (← n.toNat?) (← f.toNat?) none)
+  | ["measure", n, a] => do pure (.measure (← n.toNat?) (← decOptInt a))
   | _ => none
 
 def effStr : Eff → String
